@@ -143,8 +143,9 @@ def side(labels):
     return ("S" if s else "") + ("O" if o else "")
 
 
-def analyse(lib, fid):
+def analyse(lib, fid, targets=None):
     """[(body, call, labels arg0, labels arg1)] for the comparison calls in fid and its closures, plus combinator uses"""
+    targets = targets or (TM, FM, SM)
     b = lib.body(fid)
     if b is None:
         return None, [], []
@@ -168,7 +169,7 @@ def analyse(lib, fid):
     combs = []
     for bid, p in provs.items():
         for c in p.b.calls:
-            if c.callee in (TM, FM, SM) and len(c.args) == 2:
+            if c.callee in targets and len(c.args) == 2:
                 calls.append((p.b, c, p.of_op(c.args[0]), p.of_op(c.args[1])))
             last = c.path.rsplit("::", 1)[-1]
             if last in ("all", "any") and len(c.args) == 2:
